@@ -94,7 +94,31 @@ Fixpoint dummy_of_table (tbl : list (string * string)) (dt : SensorCache.dtype) 
   | (cls, f) :: t => if in_class dt cls then filler_code f else dummy_of_table t dt
   end.
 
-(* ---------- wire: (subarray-table spw-table) -> (subarray ids, spw ids, dummy codes by dtype code 0..4) ---------- *)
+(* unsigned integer types (ubits = width > 0; 0 = one of C12's types): np.issubdtype(np.uint8, np.integer) holds, so they
+   take the integer branch; its filler np.array(k).astype(dtype)[()] ([cast] = the translator found that form) is k CAST
+   into the type: k modulo 2^ubits *)
+Definition in_class_u (ubits : Z) (dt : SensorCache.dtype) (cls : string) : bool :=
+  match dt with
+  | SensorCache.DInt => if ubits <=? 0 then in_class dt cls
+                        else String.eqb cls "integer" || String.eqb cls "unsignedinteger" || String.eqb cls "number"
+  | _ => in_class dt cls
+  end.
+Definition cast_filler (cast : bool) (ubits k : Z) : Z := if cast && (0 <? ubits) then k mod 2 ^ ubits else k.
+Fixpoint dummy_of_table_u (tbl : list (string * string)) (cast : bool) (ubits : Z) (dt : SensorCache.dtype) : Z :=
+  match tbl with
+  | [] => -8888
+  | (cls, f) :: t => if in_class_u ubits dt cls
+                     then match dt with
+                          | SensorCache.DInt => cast_filler cast ubits (filler_code f)
+                          | _ => filler_code f
+                          end
+                     else dummy_of_table_u t cast ubits dt
+  end.
+(* (the extracted driver computes with 63-bit OCaml integers: 2^64 - 1 cannot cross the wire; the theorems cover any width) *)
+Definition unsigned_widths : list Z := [8; 16; 32].
+
+(* ---------- wire: (subarray-table spw-table) -> (subarray ids, spw ids, dummy codes by dtype code 0..4,
+                                                  dummy codes of uint8 / 16 / 32) ---------- *)
 Definition to_input (x : sx) : input := match x with L [I a; I p] => (a, p) | _ => (-1, -1) end.
 Definition to_cprod (x : sx) : cprod :=
   match x with L [I a; I pa; I b; I pb] => ((a, pa), (b, pb)) | _ => ((-1, -1), (-1, -1)) end.
@@ -112,6 +136,7 @@ Definition wire_194 (x : sx) : sx :=
   | L [subs; spws] =>
       L [of_nats (intern_ids sub_eqb (map to_sub (to_list subs)));
          of_nats (intern_ids spw_eqb (map to_spw (to_list spws)));
-         of_Zs (map (dummy_of_table dummy_value_table) all_dtypes)]
+         of_Zs (map (dummy_of_table dummy_value_table) all_dtypes);
+         of_Zs (map (fun b => dummy_of_table_u dummy_value_table dummy_int_is_cast_into_type b SensorCache.DInt) unsigned_widths)]
   | _ => sx_err
   end.
